@@ -46,8 +46,9 @@ def check_only(prop, sid):
         patch = rebased[-1] if rebased else "patch.diff"
         ap = sh(["git", "-C", wt, "apply", os.path.join(out, patch)])
         assert ap.returncode == 0, ap.stderr
-        meta["check"] = run_check(prop, wt)
-        meta["check"]["patch_used"] = patch
+        key = "check" if prop == meta.get("property") else "check_" + prop
+        meta[key] = run_check(prop, wt)
+        meta[key]["patch_used"] = patch
         if rebased:
             env = dict(os.environ, PYTHONPATH=os.path.join(wt, "src"), JAX_PLATFORMS="cpu")
             meta["demo_rebased_exit"] = sh(["/venv/bin/python", os.path.join(out, "demo.py")], env=env, cwd=wt, timeout=1800).returncode
@@ -57,8 +58,8 @@ def check_only(prop, sid):
         shutil.rmtree(os.path.join(VERIF, "replays"), ignore_errors=True)
     with open(os.path.join(out, "meta.json"), "w") as f:
         json.dump(meta, f, indent=1)
-    c = meta["check"]
-    print(sid, "check", c["detected"], c["clauses"], "exit", c["exit"], c["last_line"])
+    c = meta[key]
+    print(sid, key, c["detected"], c["clauses"], "exit", c["exit"], c["last_line"])
     return 0
 
 
